@@ -338,7 +338,11 @@ pub fn exec_op(op: &Op, sh: &SharedObjs, su: &Setup) -> Vec<u8> {
             let mut r = Prng::new(*seed);
             if let Some(e) = &sh.ckks {
                 let vals: Vec<num_complex::Complex<f64>> = (0..e.slot_count()).map(|_| num_complex::Complex::new(r.below(9) as f64 - 4.0, r.below(9) as f64 - 4.0)).collect();
-                let p = e.encode_c64_array_new(&vals, None, (1u64 << 20) as f64);
+                // one encode in four uses a scale so large that the scaled coefficients need the
+                // encoder's multi-precision path (where the modulus has the room for it)
+                let data_bits: usize = w.level_moduli(&levels[0]).iter().map(|&q| 64 - q.leading_zeros() as usize).sum();
+                let scale = if *seed % 4 == 0 && data_bits >= 150 { 2f64.powi((data_bits as i32 - 10).min(160)) } else { (1u64 << 20) as f64 };
+                let p = e.encode_c64_array_new(&vals, None, scale);
                 let back = e.decode_new(&p);
                 let mut out = ser_obj(Obj::Plain(p), &sh.ctx);
                 for c in back {
@@ -578,7 +582,8 @@ fn gen_large_scenario(rng: &mut Prng, run_seed: u64) -> Option<Scn> {
 /// truly parallel repetitions to show; the oracle is the usual one (every call returns what the
 /// sequential execution returns).
 fn gen_hammer_scenario(rng: &mut Prng, run_seed: u64) -> Option<Scn> {
-    let opts = SpecOpts {
+    let family = rng.below(10);
+    let mut opts = SpecOpts {
         schemes: vec![BFV, BGV, CKKS],
         ns: vec![32, 64],
         min_primes: 2,
@@ -587,11 +592,17 @@ fn gen_hammer_scenario(rng: &mut Prng, run_seed: u64) -> Option<Scn> {
         tbits: vec![13, 17],
         batching: true,
     };
+    if family >= 8 {
+        // encoder hammer with room for very large CKKS scales (the encoder's multi-precision path)
+        opts.schemes = vec![CKKS];
+        opts.min_primes = 4;
+        opts.max_primes = 4;
+        opts.qbits = vec![58, 60];
+    }
     let spec = gen::draw_spec(rng, &opts)?;
     let n = spec.n;
     let nlevels = spec.q.len() - 1;
     let nthreads = 4;
-    let family = rng.below(8);
     let half = (n / 2) as isize;
     let step_pool = [1isize, 2, -1, 5, 3, -2, half - 1];
     let mut threads = Vec::new();
@@ -613,7 +624,7 @@ fn gen_hammer_scenario(rng: &mut Prng, run_seed: u64) -> Option<Scn> {
                 .map(|_| if spec.scheme == BFV { Op::ApplyGaloisPlain { elt: my_elt, level, seed } } else { Op::ApplyGalois { elt: my_elt, level, seed } })
                 .collect(),
             // encoder and encryptor
-            5 => (0..400).map(|k| if k % 3 == 2 { Op::Encrypt { sym: t % 2 == 0, seed } } else { Op::Encode { seed: seed.wrapping_add(k as u64) >> 1 } }).collect(),
+            5 | 8 | 9 => (0..400).map(|k| if k % 3 == 2 { Op::Encrypt { sym: t % 2 == 0, seed } } else { Op::Encode { seed: seed.wrapping_add(k as u64) >> 1 } }).collect(),
             // decryptions of a per-thread size
             6 => (0..400).map(|_| Op::Decrypt { size: 2 + t, level, ntt: spec.scheme != BFV, seed }).collect(),
             // key generator: relinearization, public and key-switching keys
